@@ -7,6 +7,7 @@ import (
 	"time"
 
 	"github.com/vipnode/vipnode/v2/ethnode"
+	"github.com/vipnode/vipnode/v2/jsonrpc2"
 	"github.com/vipnode/vipnode/v2/pool"
 	"verifharness/vlib"
 )
@@ -14,7 +15,7 @@ import (
 func TestC06(t *testing.T) {
 	ev := vlib.NewEvidence("C06", "exploration",
 		"a valid session (2 hosts, 2 clients, 2 wallets) is advanced to a random point; then one refused request (bit-flipped signature, other key, malformed signature, replay of an accepted request, nonce older than the freshness window) is injected against each of the 7 signed endpoints naming a live victim identity with a nonce far above the victim's; the digest of all RPC-reachable pool state and of the calls seen by fake hosts must be unchanged, and the victim's next correctly signed request with a smaller-but-fresh nonce must pass verification; non-trivial = refused request injected into a session holding balances/peers; distinct = (endpoint, refusal kind, session point)")
-	kinds := []string{"bitflip", "wrong-key", "malformed", "replay", "too-old"}
+	kinds := []string{"bitflip", "wrong-key", "malformed", "replay", "too-old", "other-registered-identity-same-connection"}
 	points := vlib.Scale(6, 60)
 	for _, driver := range vlib.Drivers() {
 		for pt := 0; pt < points; pt++ {
@@ -48,6 +49,8 @@ func TestC06(t *testing.T) {
 					// victim
 					var victim *vlib.Identity
 					identity := ""
+					walletNode := false
+					universe2 := []string{}
 					switch {
 					case strings.HasPrefix(ep.Method, "pool_"):
 						victim = lw.wallets[r.Intn(2)]
@@ -58,9 +61,20 @@ func TestC06(t *testing.T) {
 					default:
 						victim = vlib.Pick(r, lw.clients[0], lw.clients[1], lw.hosts[0])
 						identity = victim.NodeID
+						if r.Intn(3) == 0 {
+							// a node that goes by a wallet-style identity (verified EIP-191 style)
+							victim = lw.wallets[1]
+							identity = victim.Wallet
+							walletNode = true
+							var cresp pool.ConnectResponse
+							if err := w.Signed(w.Local, victim, identity, "vipnode_connect", &cresp, vlib.ConnectReq(false, "geth", "", "")); err != nil {
+								ev.Violate("setup:wallet-style-node-refused", map[string]interface{}{"err": err.Error()})
+							}
+							universe2 = append(universe2, identity)
+						}
 					}
 					attacker := vlib.NewIdentity("c06attacker", pt)
-					universe := append(append([]string{}, lw.universe...), attacker.NodeID)
+					universe := append(append(append([]string{}, lw.universe...), attacker.NodeID), universe2...)
 					accounts := append(append([]string{}, lw.accounts...), attacker.Wallet)
 					// the victim's own last accepted nonce
 					ownNonce := w.NextNonce(identity)
@@ -70,7 +84,11 @@ func TestC06(t *testing.T) {
 					} else {
 						_, ownErr = func() (interface{}, error) {
 							var resp pool.UpdateResponse
-							e := w.SignedNonce(lw.conns[victim.NodeID].AgentSide, victim, identity, "vipnode_update", ownNonce, &resp, pool.UpdateRequest{PeerInfo: infos[:1]})
+							var vs jsonrpc2.Service = w.Local
+							if !walletNode {
+								vs = lw.conns[victim.NodeID].AgentSide
+							}
+							e := w.SignedNonce(vs, victim, identity, "vipnode_update", ownNonce, &resp, pool.UpdateRequest{PeerInfo: infos[:1]})
 							return nil, e
 						}()
 					}
@@ -107,8 +125,25 @@ func TestC06(t *testing.T) {
 						params = append([]interface{}{vlib.RefSign(victim.Key, ep.Method, identity, old, args...), identity, old}, args...)
 						forgedNonce = old
 					}
+					var svc jsonrpc2.Service = w.Local
+					if kind == "other-registered-identity-same-connection" {
+						// a validly registered host names the victim on its own connection and signs with its own key
+						forger := lw.hosts[1]
+						if victim == forger {
+							forger = lw.hosts[0]
+						}
+						if strings.HasPrefix(ep.Method, "pool_") {
+							forger = lw.wallets[1]
+							if victim == forger {
+								forger = lw.wallets[0]
+							}
+						} else {
+							svc = lw.conns[forger.NodeID].AgentSide
+						}
+						params = append([]interface{}{vlib.RefSign(forger.Key, ep.Method, identity, forgedNonce, args...), identity, forgedNonce}, args...)
+					}
 					before := w.Digest(universe, accounts)
-					out := guardedCall(w.Local, ep.Method, params...)
+					out := guardedCall(svc, ep.Method, params...)
 					after := w.Digest(universe, accounts)
 					ev.Case(fmt.Sprintf("%s/%s/%s/point%d", driver, ep.Method, kind, pt), true)
 					ev.Count("refusals:"+kind, 1)
@@ -133,7 +168,11 @@ func TestC06(t *testing.T) {
 							nerr = w.SignedNonce(w.Local, victim, identity, "pool_addNode", next, nil, lw.clients[1].NodeID)
 						} else {
 							var resp pool.UpdateResponse
-							nerr = w.SignedNonce(lw.conns[victim.NodeID].AgentSide, victim, identity, "vipnode_update", next, &resp, pool.UpdateRequest{PeerInfo: infos[:1]})
+							var vs jsonrpc2.Service = w.Local
+							if !walletNode {
+								vs = lw.conns[victim.NodeID].AgentSide
+							}
+							nerr = w.SignedNonce(vs, victim, identity, "vipnode_update", next, &resp, pool.UpdateRequest{PeerInfo: infos[:1]})
 						}
 						if nerr != nil && strings.Contains(nerr.Error(), "failed to verify") {
 							detail["followup_err"] = nerr.Error()
